@@ -260,7 +260,6 @@ VerDo(x, c) ==
 (***************************************************************************)
 ProvHdr == <<"hdr.label_len", "hdr.pk_len", "hdr.ck_len", "hdr.vk_len", "hdr.size", "hdr.constraints">>
 PolyName(i) == ToString(i)
-CkIdx(j) == IF j = 1 THEN 1 ELSE IF j = 2 THEN 2 ELSE 3      \* first / middle / last point
 ProvField(x) ==
   CASE x.pc = "total" -> "total"
     [] x.pc = "hdr" -> ProvHdr[x.i]
@@ -502,7 +501,6 @@ CanonTok(t) == \/ t[1] = "total"
                \/ t[2] \in {"valid", "other", "identity", "negated", "canon"}
 ProofCanonical == (s.m = "proof" /\ s.st = "ok" /\ s.total = 1008) =>
                      \A k \in 1..Len(hist) : CanonTok(hist[k])
-Terminates == <>(s.st # "run")
 
 Scenario == [m |-> s.m, toks |-> hist, pred |-> s.st, why |-> s.why, steps |-> s.steps,
              alloc |-> s.alloc, total |-> s.total, skipped |-> s.skipped]
